@@ -38,25 +38,26 @@ def saleReturnAndCheck (P : Params) (o : Oracle) (v : BView) (value : Int) : M (
   | .error e => throw e
   | .ok r => if v.reserve - r < P.minReserve then pure (.error 116) else pure (.ok r)
 
-/-- `CalculateSaleAmountAndCheck` (the underflow check is made with the *coin* amount, as in the code). -/
+/-- `CalculateSaleAmountAndCheck`: the minimal-reserve rule applies to the base-coin amount `value` leaving the reserve. -/
 def saleAmountAndCheck (P : Params) (o : Oracle) (v : BView) (value : Int) : M (Except Nat Int) :=
   if v.reserve < value then pure (.error 103) else
   match ask o (.saleAmount v.volume v.reserve v.crr value) with
   | .error e => throw e
-  | .ok r => if v.reserve - r < P.minReserve then pure (.error 116) else pure (.ok r)
+  | .ok r => if v.reserve - value < P.minReserve then pure (.error 116) else pure (.ok r)
 
 /-- Selling `value` of `sell` for `buy`: (base value moved between the reserves, amount bought) or a response code. -/
+def sellStep2 (o : Oracle) (buy : Coin) (to : BView) (bip : Int) : M (Except Nat (Int × Int)) :=
+  if buy == 0 then pure (.ok (bip, bip)) else
+  match ask o (.purchaseReturn to.volume to.reserve to.crr bip) with
+  | .error e => throw e
+  | .ok r => if to.volume + r > to.maxSupply then pure (.error 112) else pure (.ok (bip, r))
+
 def sellQuote (P : Params) (o : Oracle) (sell buy : Coin) (from_ to : BView) (value : Int) : M (Except Nat (Int × Int)) :=
-  let step2 (bip : Int) : M (Except Nat (Int × Int)) :=
-    if buy == 0 then pure (.ok (bip, bip)) else
-    match ask o (.purchaseReturn to.volume to.reserve to.crr bip) with
-    | .error e => throw e
-    | .ok r => if to.volume + r > to.maxSupply then pure (.error 112) else pure (.ok (bip, r))
-  if sell == 0 then step2 value else
+  if sell == 0 then sellStep2 o buy to value else
   match saleReturnAndCheck P o from_ value with
   | .error e => throw e
   | .ok (.error c) => pure (.error c)
-  | .ok (.ok bip) => step2 bip
+  | .ok (.ok bip) => sellStep2 o buy to bip
 
 /-- The views of the two coins after the `DummyCoin` adjustment. -/
 def bancorViews (s : State) (gas sell buy : Coin) (com : Com) : BView × BView :=
@@ -76,14 +77,25 @@ def runSellCoin (P : Params) (o : Oracle) (s : State) (t : TxIn) (price : Int) :
   | none =>
     withCom P o s t.gasCoin price fun com =>
       if t.gasCoin != sell && balanceOf s t.sender sell < value then reject 107 else
-      if balanceOf s t.sender t.gasCoin < (if t.gasCoin == sell then com.commission + value else com.commission) then reject 107 else
-      let (from_, to) := bancorViews s t.gasCoin sell buy com
-      match sellQuote P o sell buy from_ to value with
+      if balanceOf s t.sender t.gasCoin < t.addIfGas sell com.commission value then reject 107 else
+      match sellQuote P o sell buy (bancorViews s t.gasCoin sell buy com).1 (bancorViews s t.gasCoin sell buy com).2 value with
       | .error e => throw e
       | .ok (.error c) => reject c
       | .ok (.ok (bip, got)) =>
         if got < minBuy then reject 303 else
         ready t com [.bancor t.sender sell value buy got bip] [("tx.return", toString got), ("tx.reserve", toString bip)]
+
+/-- Buying `want` of `buy`: the base value that has to enter its reserve (supply overflow checked first). -/
+def buyStep1 (o : Oracle) (buy : Coin) (to : BView) (want : Int) : M (Except Nat Int) :=
+  if buy == 0 then pure (.ok want) else
+  if to.volume + want > to.maxSupply then pure (.error 112) else
+  match ask o (.purchaseAmount to.volume to.reserve to.crr want) with
+  | .error e => throw e
+  | .ok r => pure (.ok r)
+
+/-- … and the amount of `sell` that yields that base value. -/
+def buyStep2 (P : Params) (o : Oracle) (sell : Coin) (from_ : BView) (bip : Int) : M (Except Nat Int) :=
+  if sell == 0 then pure (.ok bip) else saleAmountAndCheck P o from_ bip
 
 /-- BuyCoin (4). -/
 def runBuyCoin (P : Params) (o : Oracle) (s : State) (t : TxIn) (price : Int) : Handler :=
@@ -93,26 +105,22 @@ def runBuyCoin (P : Params) (o : Oracle) (s : State) (t : TxIn) (price : Int) : 
   | some c => reject c
   | none =>
     withCom P o s t.gasCoin price fun com =>
-      let (from_, to) := bancorViews s t.gasCoin sell buy com
-      let step1 : M (Except Nat Int) :=
-        if buy == 0 then pure (.ok want) else
-        if to.volume + want > to.maxSupply then pure (.error 112) else
-        match ask o (.purchaseAmount to.volume to.reserve to.crr want) with
-        | .error e => throw e
-        | .ok r => pure (.ok r)
-      match step1 with
+      match buyStep1 o buy (bancorViews s t.gasCoin sell buy com).2 want with
       | .error e => throw e
       | .ok (.error c) => reject c
       | .ok (.ok bip) =>
-        let step2 : M (Except Nat Int) := if sell == 0 then pure (.ok bip) else saleAmountAndCheck P o from_ bip
-        match step2 with
+        match buyStep2 P o sell (bancorViews s t.gasCoin sell buy com).1 bip with
         | .error e => throw e
         | .ok (.error c) => reject c
         | .ok (.ok pay) =>
           if pay > maxSell then reject 302 else
           if t.gasCoin != sell && balanceOf s t.sender sell < pay then reject 107 else
-          if balanceOf s t.sender t.gasCoin < (if t.gasCoin == sell then com.commission + pay else com.commission) then reject 107 else
+          if balanceOf s t.sender t.gasCoin < t.addIfGas sell com.commission pay then reject 107 else
           ready t com [.bancor t.sender sell pay buy want bip] [("tx.return", toString pay), ("tx.reserve", toString bip)]
+
+/-- The coin being sold by SellAllCoin after its own bancor-paid commission (`DummyCoin`). -/
+def sellAllView (s : State) (sell : Coin) (com : Com) : BView :=
+  if !com.fromPool && sell != 0 then (bview s sell).afterCom com else bview s sell
 
 /-- SellAllCoin (3): the commission is paid in the coin being sold. -/
 def runSellAllCoin (P : Params) (o : Oracle) (s : State) (t : TxIn) (price : Int) : Handler :=
@@ -124,10 +132,9 @@ def runSellAllCoin (P : Params) (o : Oracle) (s : State) (t : TxIn) (price : Int
     withCom P o s sell price fun com =>
       let balance := balanceOf s t.sender sell
       if balance ≤ com.commission then reject 107 else
-      let from_ := if !com.fromPool && sell != 0 then (bview s sell).afterCom com else bview s sell
       let value := balance - com.commission
       if value ≤ 0 then reject 107 else
-      match sellQuote P o sell buy from_ (bview s buy) value with
+      match sellQuote P o sell buy (sellAllView s sell com) (bview s buy) value with
       | .error e => throw e
       | .ok (.error c) => reject c
       | .ok (.ok (bip, got)) =>
